@@ -454,7 +454,10 @@ type Conn struct {
 	// the bytes are on their way and before Write returns (a writer that is
 	// slow to get the processor back).
 	WriteHook func(n int)
-	wroteN    int64
+	// DeadlineErr, when set, is what every Set*Deadline call returns, without
+	// any effect (the calls are still recorded).
+	DeadlineErr error
+	wroteN      int64
 }
 
 type DeadlineCall struct {
@@ -688,13 +691,18 @@ func (a addr) String() string  { return string(a) }
 func (c *Conn) LocalAddr() net.Addr  { return addr(c.name) }
 func (c *Conn) RemoteAddr() net.Addr { return addr(c.name + "-peer") }
 
-func (c *Conn) setDL(kind string, t time.Time) {
+func (c *Conn) setDL(kind string, t time.Time) error {
 	if h := c.DeadlineHook; h != nil {
 		h(t)
 	}
 	c.mu.Lock()
 	seq := c.w.Ev(c.name, kind, 0, "")
 	c.Deadlines = append(c.Deadlines, DeadlineCall{Seq: seq, At: c.w.Now(), Kind: kind, T: t})
+	if c.DeadlineErr != nil {
+		// a transport without deadline support (a tunnel, an io.Pipe adapter)
+		c.mu.Unlock()
+		return c.DeadlineErr
+	}
 	switch kind {
 	case "SetDeadline":
 		c.rdl, c.wdl = t, t
@@ -706,11 +714,12 @@ func (c *Conn) setDL(kind string, t time.Time) {
 	c.mu.Unlock()
 	signal(c.dlCh)
 	signal(c.wdlCh)
+	return nil
 }
 
-func (c *Conn) SetDeadline(t time.Time) error      { c.setDL("SetDeadline", t); return nil }
-func (c *Conn) SetReadDeadline(t time.Time) error  { c.setDL("SetReadDeadline", t); return nil }
-func (c *Conn) SetWriteDeadline(t time.Time) error { c.setDL("SetWriteDeadline", t); return nil }
+func (c *Conn) SetDeadline(t time.Time) error      { return c.setDL("SetDeadline", t) }
+func (c *Conn) SetReadDeadline(t time.Time) error  { return c.setDL("SetReadDeadline", t) }
+func (c *Conn) SetWriteDeadline(t time.Time) error { return c.setDL("SetWriteDeadline", t) }
 
 func (c *Conn) DeadlineCalls() []DeadlineCall {
 	c.mu.Lock()
